@@ -48,6 +48,11 @@ CONSTANTS
 Min2(a, b) == IF a <= b THEN a ELSE b
 Max2(a, b) == IF a >= b THEN a ELSE b
 
+\* TLC evaluates a function constructor lazily (the body is re-evaluated at every
+\* application).  Eager(f) is f, tabulated once (the TLC module's @@ normalises its
+\* operands to explicit functions).
+Eager(f) == f @@ <<>>
+
 \* sum of s[1..k]
 PSum(s, k) == LET f[i \in 0..k] == IF i = 0 THEN 0 ELSE f[i-1] + s[i] IN f[k]
 Sum(s) == PSum(s, Len(s))
@@ -118,12 +123,12 @@ U2xOfR(t, r) ==
 \* number of assignments with 2U = v, for v in 0..M2 (brute force)
 Hist(t, n) ==
   LET rs == RVecs(t, n)
-  IN [v \in 0..M2(t, n) |->
-        LET S == {r \in rs : U2xOfR(t, r) = v}
-            RECURSIVE Acc(_)
-            Acc(Q) == IF Q = {} THEN 0
-                      ELSE LET r == CHOOSE r \in Q : TRUE IN Weight(t, r) + Acc(Q \ {r})
-        IN Acc(S)]
+      us == Eager([r \in rs |-> U2xOfR(t, r)])
+      ws == Eager([r \in rs |-> Weight(t, r)])
+      RECURSIVE Acc(_)
+      Acc(Q) == IF Q = {} THEN 0
+                ELSE LET r == CHOOSE r \in Q : TRUE IN ws[r] + Acc(Q \ {r})
+  IN Eager([v \in 0..M2(t, n) |-> Acc({r \in rs : us[r] = v})])
 
 HistAt(h, v) == IF v \in DOMAIN h THEN h[v] ELSE 0
 HistTop(h) == Cardinality(DOMAIN h) - 1            \* DOMAIN h = 0..M2
@@ -166,7 +171,8 @@ UntiedCDF(a, b, v) ==            \* UDist.CDF, no ties
 \* upwards; a pruned or missing argument counts as "all" (above twoUmax) or 0.
 \* a[1] = t[1], a[k] = a[k-1] + t[k-1] + t[k]   (the form the code uses)
 ACoefRec(t) ==
-  LET a[k \in 1..Len(t)] == IF k = 1 THEN t[1] ELSE a[k-1] + t[k-1] + t[k] IN a
+  LET a[k \in 1..Len(t)] == IF k = 1 THEN t[1] ELSE a[k-1] + t[k-1] + t[k]
+  IN Eager([k \in 1..Len(t) |-> a[k]])
 
 TwoUmin(n, t, k, a) ==
   LET f[j \in 0..k] ==
@@ -184,8 +190,14 @@ TwoUmax(n, t, k, a) ==
              IN <<p[1] + take * a[j], p[2] - take>>
   IN f[1][1]
 
-RECURSIVE AOp(_, _, _, _, _, _), XOp(_, _, _, _, _, _)
-AOp(trunc, t, a, k, n, w) ==
+\* The pruning bounds depend on (k, n) only; they are tabulated once per input
+\* (b.lo[k][n] = twoUmin(n, t[:k], a), b.hi[k][n] = twoUmax(n, t[:k], a)).
+Bounds(t, a, nmax) ==
+  [lo |-> Eager([k \in 2..Len(t) |-> Eager([n \in 0..nmax |-> TwoUmin(n, t, k, a)])]),
+   hi |-> Eager([k \in 2..Len(t) |-> Eager([n \in 0..nmax |-> TwoUmax(n, t, k, a)])])]
+
+RECURSIVE AOp(_, _, _, _, _, _, _), XOp(_, _, _, _, _, _, _)
+AOp(trunc, t, a, b, k, n, w) ==
   IF k = 2 THEN
     \* base case, udist.go:261-271
     LET N2  == t[1] + t[2]
@@ -198,32 +210,29 @@ AOp(trunc, t, a, k, n, w) ==
         lo == Max2(0, n - tsum)
         hi == Min2(n, t[k])
     IN SumRange(lo, hi, LAMBDA rk :
-         Choose(t[k], rk) * XOp(trunc, t, a, k-1, n - rk, w - rk * (a[k] - 2*n + rk)))
+         Choose(t[k], rk) * XOp(trunc, t, a, b, k-1, n - rk, w - rk * (a[k] - 2*n + rk)))
 
 \* lookup of A[k][(n, w)]: present iff within the pruning bounds
-XOp(trunc, t, a, k, n, w) ==
-  LET lo == TwoUmin(n, t, k, a)
-      hi == TwoUmax(n, t, k, a)
-  IN IF lo <= w /\ w <= hi THEN AOp(trunc, t, a, k, n, w)
-     ELSE IF hi < w THEN Choose(PSum(t, k), n)
-     ELSE 0
+XOp(trunc, t, a, b, k, n, w) ==
+  IF b.lo[k][n] <= w /\ w <= b.hi[k][n] THEN AOp(trunc, t, a, b, k, n, w)
+  ELSE IF b.hi[k][n] < w THEN Choose(PSum(t, k), n)
+  ELSE 0
 
-TiedRaw(trunc, t, n, w) == AOp(trunc, t, ACoefRec(t), Len(t), n, w)   \* makeUmemo(w, n, t)[K][(n, w)]
+\* the values the memo table delivers for every argument w, computed once per input
+\* (entry w is makeUmemo(w, n, t)[K][(n, w)])
+TiedTable(trunc, t, n) ==
+  LET a == ACoefRec(t)
+      b == Bounds(t, a, n)
+  IN Eager([w \in (-2)..(M2(t, n) + 1) |-> AOp(trunc, t, a, b, Len(t), n, w)])
 
-TiedCDF(trunc, t, n, v) ==
+TiedCDF(tab, t, n, v) ==
   IF v < 0 THEN 0
   ELSE IF v >= M2(t, n) THEN Total(t, n)
-  ELSE TiedRaw(trunc, t, n, v)
+  ELSE tab[v]                                   \* makeUmemo(int(2U), ...)[K][(n1, int(2U))]
 
-TiedPMF(trunc, t, n, v) ==
+TiedPMF(tab, t, n, v) ==
   IF v < 0 \/ v >= 1 + M2(t, n) THEN 0
-  ELSE TiedRaw(trunc, t, n, v) - TiedRaw(trunc, t, n, v - 1)
-
-\* UDist{N1: n, N2: N-n, T: t}.CDF(v/2) and .PMF(v/2), as counts
-CDFOp(trunc, t, n, v) ==
-  IF HasTies(t) THEN TiedCDF(trunc, t, n, v) ELSE UntiedCDF(n, Sum(t) - n, v)
-PMFOp(trunc, t, n, v) ==
-  IF HasTies(t) THEN TiedPMF(trunc, t, n, v) ELSE UntiedPMF(n, Sum(t) - n, v)
+  ELSE tab[v] - tab[v - 1]                      \* difference of two memo tables
 
 \* the grid on which the mass function is defined: half-integers with ties,
 \* integers without ("U must be integral", udist.go)
@@ -231,8 +240,16 @@ PmfGrid(t, n) ==
   IF HasTies(t) THEN (-1)..(M2(t, n) + 1)
   ELSE {v \in (-2)..(M2(t, n) + 2) : v % 2 = 0}
 
-CdfTable(trunc, t, n) == [v \in (-2)..(M2(t, n) + 1) |-> CDFOp(trunc, t, n, v)]
-PmfTable(trunc, t, n) == [v \in PmfGrid(t, n) |-> PMFOp(trunc, t, n, v)]
+\* UDist{N1: n, N2: N-n, T: t}.CDF(v/2) and .PMF(v/2) as counts, v = 2U
+Tables(trunc, t, n) ==
+  IF HasTies(t)
+  THEN LET tab == TiedTable(trunc, t, n)
+       IN [cdf |-> Eager([v \in (-2)..(M2(t, n) + 1) |-> TiedCDF(tab, t, n, v)]),
+           pmf |-> Eager([v \in PmfGrid(t, n) |-> TiedPMF(tab, t, n, v)])]
+  ELSE [cdf |-> Eager([v \in (-2)..(M2(t, n) + 1) |-> UntiedCDF(n, Sum(t) - n, v)]),
+        pmf |-> Eager([v \in PmfGrid(t, n) |-> UntiedPMF(n, Sum(t) - n, v)])]
+
+CdfTable(trunc, t, n) == Tables(trunc, t, n).cdf
 
 -----------------------------------------------------------------------------
 \* OPERATIONAL SIDE, part 2: the p-values of utest.go from a CDF table c
@@ -304,8 +321,8 @@ Tabulate ==
   /\ phase' = "tab"
   /\ IF Outcome(T, n1) = "ok"
      THEN /\ hist' = Hist(T, n1)
-          /\ cdf' = CdfTable(TruncDivBaseCase, T, n1)
-          /\ pmf' = PmfTable(TruncDivBaseCase, T, n1)
+          /\ LET tb == Tables(TruncDivBaseCase, T, n1)
+             IN cdf' = tb.cdf /\ pmf' = tb.pmf
      ELSE UNCHANGED <<hist, cdf, pmf>>
   /\ UNCHANGED <<T, n1, lab>>
 
